@@ -578,6 +578,41 @@ func checkC10(p *Prog, r *Report) {
 		}
 	}
 
+	// accessors hand out copies, never the loop's own slices or maps
+	for _, f := range p.AllFuncs {
+		if f.Lit == nil || f.Parent == nil || !p.isAPIRoot(f.Parent) || !ci.Has(f, CtxLoop) {
+			continue
+		}
+		walkBody(f, func(n ast.Node) bool {
+			as, ok := n.(*ast.AssignStmt)
+			if !ok || len(as.Lhs) != len(as.Rhs) {
+				return true
+			}
+			for i, l := range as.Lhs {
+				id, ok := unparen(l).(*ast.Ident)
+				if !ok {
+					continue
+				}
+				obj := p.ObjOf(id)
+				// a variable of the enclosing exported method (the result carrier)
+				if obj == nil || f.Body.Pos() <= obj.Pos() && obj.Pos() <= f.Body.End() {
+					continue
+				}
+				switch p.TypeOf(id).Underlying().(type) {
+				case *types.Slice, *types.Map:
+				default:
+					continue
+				}
+				if why := p.aliasesLoopState(f, as.Rhs[i], 0); why != "" {
+					r.Fail(f.Parent.Name+": result is a copy", p.Pos(as.Pos()), "the accessor hands out "+why+" itself, not a copy: the caller's goroutine then reads memory the task loop keeps mutating (and earlier results change under the caller)")
+				} else {
+					r.OK(f.Parent.Name+": result is a copy", p.Pos(as.Pos()), "built inside the task")
+				}
+			}
+			return true
+		})
+	}
+
 	// ---- R10.5 the role flag is used only inside the loop ----
 	r.Rule("R10.5", "The controlling/controlled flag is read and written only by code that runs inside the task loop or during construction: no exported entry point tests the role before queueing the task that depends on it.", 5)
 	checkRoleFlagConfined(p, r)
@@ -601,4 +636,56 @@ func (p *Prog) insideAtomicCall(f *Func, sel ast.Node) bool {
 		return true
 	})
 	return found
+}
+
+// aliasesLoopState: e (a slice or map) is, or may be, a field of the agent or an
+// element of one — as opposed to a value built inside the task (append to a
+// fresh or nil slice, make, a literal). Returns a description or "".
+func (p *Prog) aliasesLoopState(f *Func, e ast.Expr, depth int) string {
+	e = unparen(e)
+	if depth > 4 {
+		return ""
+	}
+	switch x := e.(type) {
+	case *ast.SelectorExpr:
+		if fv := p.FieldOf(x); fv != nil {
+			return p.FieldName(fv)
+		}
+	case *ast.IndexExpr:
+		if w := p.aliasesLoopState(f, x.X, depth+1); w != "" {
+			return "an element of " + w
+		}
+	case *ast.SliceExpr:
+		return p.aliasesLoopState(f, x.X, depth+1)
+	case *ast.Ident:
+		if _, isNil := p.ObjOf(x).(*types.Nil); isNil {
+			return ""
+		}
+		for _, d := range p.DefsOf(f, p.ObjOf(x)) {
+			if d.Rhs == nil {
+				var rx ast.Expr
+				switch rn := d.Node.(type) {
+				case *RangeAssign:
+					rx = rn.Stmt.X
+				case *ast.RangeStmt:
+					rx = rn.X
+				}
+				if rx != nil {
+					if w := p.aliasesLoopState(f, rx, depth+1); w != "" {
+						return "an element of " + w
+					}
+				}
+				continue
+			}
+			if w := p.aliasesLoopState(f, d.Rhs, depth+1); w != "" {
+				return w
+			}
+		}
+	case *ast.CallExpr:
+		if p.CalleeName(x) == "builtin.append" && len(x.Args) > 0 {
+			// append(dst, ...) aliases dst when dst has spare capacity
+			return p.aliasesLoopState(f, x.Args[0], depth+1)
+		}
+	}
+	return ""
 }
